@@ -521,6 +521,107 @@ pub fn run(report: &Report, thorough: bool) -> Evidence {
         parts.insert("D_key_sweep".into(), json!({"presses": n, "phonetic_configurations": 8, "fixed_configurations": 16}));
     }
 
+    // (E) the LARGEST lists, with a learned choice behind them. All lower-case words of <= 3 letters are typed once to find
+    // the bases with the most candidates; for each of the top bases EVERY candidate index is committed in turn (new store
+    // each time), and the base is then typed again followed by every suffix key of <= 2 letters: each list on the way
+    // (20-40 candidates for the biggest ones, with the preselection coming from the learned base + suffix) is judged.
+    if crate::par::part_enabled("E") {
+        let dict = crate::data::Dict::load(&real_db());
+        let az: Vec<char> = ('a'..='z').collect();
+        let sizes: std::sync::Mutex<Vec<(usize, String)>> = std::sync::Mutex::new(vec![]);
+        par_for(
+            26,
+            1,
+            |w| scratch_xdg(&format!("c02e-{}", w)),
+            |xdg, a| {
+                let mut o = Opts::phonetic(&real_db(), xdg);
+                o.english = true;
+                crate::drv::clear_user_files(&o);
+                let mut ctx = Ctx::new(&o).expect("ctx");
+                ctx.with_pre = false;
+                let mut local = vec![];
+                for &b in &az {
+                    for &c in &az {
+                        let w: String = [az[a], b, c].iter().collect();
+                        let _ = ctx.apply(&Ev::Finish);
+                        let mut last = 0;
+                        for ch in w.chars() {
+                            if let Ok(r) = ctx.ch(ch) {
+                                last = r.len();
+                            }
+                        }
+                        local.push((last, w));
+                    }
+                }
+                sizes.lock().unwrap().extend(local);
+            },
+            |_| (),
+        );
+        let mut sizes = sizes.into_inner().unwrap();
+        sizes.sort_by(|a, b| b.0.cmp(&a.0).then(a.1.cmp(&b.1)));
+        let nb = if thorough { 48 } else { 12 };
+        let bases: Vec<(usize, String)> = sizes.into_iter().take(nb).collect();
+        let mut sfx: Vec<&String> = dict.suffix.keys().filter(|k| k.len() <= 2).collect();
+        sfx.sort();
+        let judged = AtomicU64::new(0);
+        let biggest = AtomicU64::new(0);
+        // job = (base, candidate index)
+        let jobs: Vec<(String, usize)> = bases.iter().flat_map(|(n, b)| (0..*n).map(move |i| (b.clone(), i))).collect();
+        par_for(
+            jobs.len(),
+            1,
+            |w| scratch_xdg(&format!("c02e2-{}", w)),
+            |xdg, j| {
+                let (base, i) = &jobs[j];
+                let mut o = Opts::phonetic(&real_db(), xdg);
+                o.english = true;
+                crate::drv::clear_user_files(&o);
+                let mut ctx = Ctx::new(&o).expect("ctx");
+                let mut h: Vec<Ev> = base.chars().map(Ev::ch).collect();
+                h.push(Ev::Commit(*i));
+                for s in &sfx {
+                    let mut hh = h.clone();
+                    hh.extend(base.chars().chain(s.chars()).map(Ev::ch));
+                    // the store is deleted and the history replayed from a new method each time
+                    let mut shown: Option<Rend> = None;
+                    if histgraph::fresh(&mut ctx, &BTreeMap::new()).is_err() {
+                        continue;
+                    }
+                    for (k, e) in hh.iter().enumerate() {
+                        match ctx.apply(e) {
+                            Ok(Out::Sugg(r)) => {
+                                judged.fetch_add(1, Ordering::Relaxed);
+                                biggest.fetch_max(r.len() as u64, Ordering::Relaxed);
+                                if let Some((kind, d)) = check_shape(&r, true) {
+                                    report.add(shape_violation(kind, d, &o, &hh[..=k], &r).feat("learned_base", base.clone()));
+                                }
+                                if let Rend::Full { aux, .. } = &r {
+                                    let text = typed_text(&hh[..=k]);
+                                    if *aux != text {
+                                        report.add(Violation::new("C02", "aux-mismatch", "aux-mismatch:large-lists").opts(&o).events(&hh[..=k]).detail(format!("auxiliary text {:?}, typed text {:?}", aux, text)));
+                                    }
+                                }
+                                shown = Some(r);
+                            }
+                            Ok(_) => {}
+                            Err(f) => {
+                                report.add(fail_violation("C02", &f, &o, &hh[..=k]));
+                                break;
+                            }
+                        }
+                    }
+                    let _ = shown;
+                }
+            },
+            |_| (),
+        );
+        let n = judged.load(Ordering::Relaxed);
+        checked.fetch_add(n, Ordering::Relaxed);
+        states += n;
+        transitions += n;
+        parts.insert("E_largest_lists_with_learned_base".into(), json!({"bases": bases.iter().map(|(n, b)| format!("{}:{}", b, n)).collect::<Vec<_>>(), "suffix_keys": sfx.len(), "lists_judged": n, "longest_list": biggest.load(Ordering::Relaxed)}));
+    }
+
     let mut ev = Evidence::new("C02", &report.tier, "model_checking");
     ev.set("states", states.max(1));
     ev.set("transitions", transitions.max(1));
